@@ -35,8 +35,9 @@ Rules used for Part A and their source (nothing is transcribed from model.cpp):
         dependent function ... given in -co2_coefs ... Applies to uncharged species only"; database comment "coefficients for the
         Drummond (1981) polynomial"; form of the polynomial: EQ3NR manual (Wolery 1992), eq. for nonpolar neutral species]
   Outside the property (excluded, counted): H2O and e- (not solute activity coefficients), -activity_water species (iso.dat; the
-  documentation gives "activity(water)/55.5" only to 3 digits), exchange and surface species, Davies/-gamma species in a file with
-  LLNL parameters (known finding, see KNOWN below).
+  documentation gives "activity(water)/55.5" only to 3 digits), exchange and surface species.
+  Species WITHOUT -llnl_gamma in a file with LLNL parameters (llnl.dat: Hf+4, Pm+3, Cyanide-, Thiocyanate-) follow R1-R3 at the
+  reported (= interpolated LLNL) DH_A / DH_B like everywhere else; see FIXED below for the defect this check found there.
 """
 import math, os, re
 from hypothesis import strategies as st
@@ -51,7 +52,8 @@ RULE = ("Part A: Hypothesis-generated solutions on the shipped ion-association d
         "EQUILIBRIUM_PHASES / MIX / temperature step, concentrations scaled by one factor per solution into a nominal ionic "
         "strength of 3e-4..4; plus a brine generator: 1-6 major ions up to several molal with 0-4 trace elements); every "
         "selected-output row with 1e-4 <= MU <= 6 is checked: LG of every aqueous species present against the model the database "
-        "text assigns, at the reported MU, DH_A, DH_B (1e-9). Non-trivial (IA) = >= 5 checked species with |LG| > 1e-3. "
+        "text assigns (in LLNL-type files also the species without -llnl_gamma: Davies / -gamma), at the reported MU, DH_A, DH_B "
+        "(1e-9). Non-trivial (IA) = >= 5 checked species with |LG| > 1e-3. "
         "Part B: composition paths c(t) = t * (mixture of 1-4 exactly stoichiometric neutral salts) on pitzer.dat, sit.dat, "
         "frezchem.dat, ColdChem.dat and pitzer.dat+Concrete_PZ.dat, t on a geometric grid of 64/128/256 intervals from 1e-4..1e-2 "
         "to a nominal ionic strength of 0.05..5.8 molal (reported MU <= 6), fixed temperature 0-100 C (frezchem/ColdChem 0-25 C), "
@@ -67,8 +69,9 @@ ASSUMPTIONS = ["vp/dbparse.py reads the -gamma / -llnl_gamma / -co2_llnl_gamma o
                "uncharged species with -llnl_gamma have log gamma = 0 (EQ3/6 / GWB convention the LLNL model is documented to follow)",
                "MU, DH_A, DH_B, TC, TK are taken as reported (the property evaluates the models AT the reported values); only for "
                "LLNL-type files are DH_A / DH_B themselves compared with the file's table",
-               "excluded and counted: H2O, e-, -activity_water species, exchange/surface species, Davies and -gamma species in files "
-               "with LLNL parameters (known finding: they get A = 0)",
+               "excluded and counted: H2O, e-, -activity_water species, exchange/surface species",
+               "species without -llnl_gamma in a file with LLNL parameters follow the general rules R1-R3 at the reported DH_A / DH_B "
+               "(asserted since the repair 5be39617 of the defect this check found: they were evaluated with A = B = 0)",
                "Gibbs-Duhem is an identity of the activity model for any change of the species molalities at fixed T, P (no chemical "
                "equilibrium needed); the MacInnes scaling (pitzer.dat) adds z_i*c to every ln gamma_i and cancels only in "
                "charge-balanced solutions, therefore every node is charge balanced by construction and nodes with "
@@ -104,15 +107,11 @@ CONCRETE = "pitzer.dat+Concrete_PZ.dat"
 PATH_DATABASES = [("pitzer.dat", 6, (0.0, 100.0)), ("sit.dat", 3, (0.0, 100.0)), ("frezchem.dat", 2, (0.0, 25.0)),
                   ("ColdChem.dat", 2, (0.0, 25.0)), (CONCRETE, 1, (0.0, 100.0))]
 
-KNOWN = ("In a database with LLNL_AQUEOUS_MODEL_PARAMETERS, species WITHOUT -llnl_gamma (Davies default, or -gamma) are evaluated "
-         "with Debye-Hueckel A = B = 0: utilities.cpp calc_dielectrics() returns at once when llnl_temp is non-empty, so the DH_A / "
-         "DH_B that model.cpp gammas() cases 1 and 2 use stay 0 (llnl.dat: Hf+4, Pm+3, Cyanide-, Thiocyanate- get log gamma = 0 at "
-         "any ionic strength, while BASIC DH_A reports the LLNL value)")
-
-
-# experiments only (e.g. against a tree that carries the candidate repair of KNOWN): assert rules R1-R3 for species without
-# -llnl_gamma in LLNL-type files too.  Never set in a normal run.
-_ASSERT_LLNL_DAVIES = bool(os.environ.get("VERIF_C16_ASSERT_LLNL_DAVIES"))
+FIXED = ("Found by this check on the pinned tree and repaired in /repo (commit 5be39617): in a database with "
+         "LLNL_AQUEOUS_MODEL_PARAMETERS, species without -llnl_gamma (Davies default, or -gamma) were evaluated with Debye-Hueckel "
+         "A = B = 0, because utilities.cpp calc_dielectrics() returns at once when llnl_temp is non-empty and model.cpp gammas() "
+         "cases 1 and 2 used the DH_A / DH_B it leaves untouched (llnl.dat: log gamma = 0 for Hf+4, Pm+3, Cyanide-, Thiocyanate- "
+         "at any ionic strength). Regression replay: replays/C16/fixed-llnl-file-davies-species-A0.json")
 
 
 def prepare(tier):
@@ -142,9 +141,7 @@ def expected_lg(sp, llnl, mu, A, B, tc, tk):
     kind = gm[0]
     if kind == "water":
         return "excluded:activity_water", None
-    if llnl is not None:
-        if kind in ("davies", "neutral", "dh"):
-            return "excluded:no_llnl_gamma_in_llnl_file(known_finding)", None
+    if llnl is not None and kind in ("llnl", "co2_llnl"):
         if kind == "llnl":
             if z == 0:
                 return "bdot_neutral", 0.0
@@ -157,7 +154,6 @@ def expected_lg(sp, llnl, mu, A, B, tc, tk):
             if len(c) != 5 or z != 0:
                 return "excluded:co2_coefs", None
             return "co2", ((c[0] + c[1] * tk + c[2] / tk) * mu - (c[3] + c[4] * tk) * (mu / (mu + 1.0))) / LN10
-        return "excluded:" + kind, None
     if kind in ("llnl", "co2_llnl"):
         return "excluded:llnl_option_without_llnl_parameters", None
     if kind == "davies":
@@ -342,6 +338,7 @@ def check_ia(case, ctx):
     worst = 0.0
     tcs, mus = [], []
     skipped_rows = 0
+    n_llnl_default = 0
     for r in range(1, T.rows):
         row = T.cells[r]
         v = {key: row[j] for (key, _), j in zip(items, ucol)}
@@ -374,11 +371,9 @@ def check_ia(case, ctx):
                 excluded["excluded:H2O_or_e-"] = excluded.get("excluded:H2O_or_e-", 0) + 1
                 continue
             sp = db.species[s]
-            if (case.get("assert_davies_in_llnl_file") or _ASSERT_LLNL_DAVIES) and llnl is not None and sp.gamma_model[0] in ("davies", "neutral", "dh"):
-                # the registered known-finding replay: the rule the documentation gives (R1-R3) at the reported constants
-                label, e = expected_lg(sp, None, mu, A, B, tc, tk)
-            else:
-                label, e = expected_lg(sp, llnl, mu, A, B, tc, tk)
+            label, e = expected_lg(sp, llnl, mu, A, B, tc, tk)
+            if llnl is not None and e is not None and label in ("davies", "neutral", "wateq", "wateq_neutral"):
+                n_llnl_default += 1
             if e is None:
                 excluded[label] = excluded.get(label, 0) + 1
                 continue
@@ -404,8 +399,10 @@ def check_ia(case, ctx):
     classes += ["ia:" + t for t in sorted({i_bucket(m) for m in mus})]
     for r in case["react"]:
         classes.append("ia:react=" + r["kind"])
-    if _ASSERT_LLNL_DAVIES:
-        classes.append("EXPERIMENT:llnl_file_davies_species_asserted")
+    if n_llnl_default:
+        classes.append("ia:species_without_llnl_gamma_in_llnl_file_checked")
+        ctx.extra["ia_species_checked:without_llnl_gamma_in_llnl_file"] = \
+            ctx.extra.get("ia_species_checked:without_llnl_gamma_in_llnl_file", 0) + n_llnl_default
     for k, n in excluded.items():
         ctx.event("ia:" + k, n)
     for k, n in models.items():
